@@ -280,11 +280,30 @@ class Registry:
         same-length sibling ranges that cover e's whole range (numdb merges every match of the
         winning length)."""
         level = self.roots if e.parent is None else e.parent.children
+        idx = self._level_index(level)
+        singles, wides = idx.get(e.length, ({}, []))
+        cands = list(wides)
+        if e.low == e.high:
+            cands += singles.get(e.low, [])
         out = {}
-        for s in level:
-            if s.length == e.length and s.low <= e.low and e.high <= s.high:
+        for s in sorted(cands, key=lambda x: x.line):
+            if s.low <= e.low and e.high <= s.high:
                 out.update(s.props)
         return out
+
+    def _level_index(self, level):
+        cache = self.__dict__.setdefault('_lvl', {})
+        k = id(level)
+        if k not in cache:
+            idx = {}
+            for s in level:
+                singles, wides = idx.setdefault(s.length, ({}, []))
+                if s.low == s.high:
+                    singles.setdefault(s.low, []).append(s)
+                else:
+                    wides.append(s)
+            cache[k] = idx
+        return cache[k]
 
     def max_depth(self):
         return max([e.depth for e in self.entries] or [0])
